@@ -10,7 +10,9 @@ use crate::gen::rdata as g;
 use crate::refimpl::wire::{self as w, Fv};
 use crate::rng::Rng;
 use bytes::Bytes;
-use domain::base::iana::Rtype;
+use domain::base::iana::{Class, Rtype};
+use domain::base::message_builder::{HashCompressor, MessageBuilder, StaticCompressor, TreeCompressor};
+use domain::base::record::Ttl;
 use domain::base::name::{FlattenInto, Name, ParsedName};
 use domain::base::opt::AllOptData;
 use domain::base::rdata::{ComposeRecordData, ParseAnyRecordData, UnknownRecordData};
@@ -262,6 +264,73 @@ fn one_value(c: &mut Ctx, fam: &str, idx: u64, rng: &mut Rng, t: u16, fs: &[Fv],
             }
             c.count("opt_records", 1);
         }
+        // (9) composing into a compressing target (the same value behind each of the three
+        // compressors, after questions that hold the embedded names so that they really
+        // compress): the RDLENGTH written equals the octets that follow, and a reader
+        // reconstructs the same RDATA
+        if fs.iter().any(|f| matches!(f, Fv::Name { .. })) {
+            let mut prelude: Vec<Name<Vec<u8>>> = Vec::new();
+            for f in fs {
+                if let Fv::Name { wire, .. } = f {
+                    if let Ok(n) = Name::from_octets(wire.clone()) {
+                        prelude.push(n);
+                    }
+                }
+            }
+            let want = w::compose_fields_lower_all(fs);
+            let any_compressible = fs.iter().any(|f| matches!(f, Fv::Name { compress: true, .. }));
+            let mut judge = |c: &mut Ctx, comp: &str, msg: Result<Vec<u8>, String>, adv: Option<u16>| {
+                let msg = match msg {
+                    Ok(m) => m,
+                    Err(e) => {
+                        viol(c, "compressing-target-push", format!("{}: {}", comp, e));
+                        return;
+                    }
+                };
+                match w::parse_message(&msg) {
+                    Ok(m) => {
+                        let Some(r) = m.records.last() else { return };
+                        if m.end != msg.len() {
+                            viol(c, "compressing-target-rdlen", format!("{}: RDLENGTH {} but the record is followed by {} stray octets", comp, r.raw_rdlen, msg.len() - m.end));
+                        } else if r.rdata_cmpform.as_deref() != Some(&want[..]) {
+                            viol(c, "compressing-target-rdata", format!("{}: a reader reconstructs different RDATA from the compressed record", comp));
+                        }
+                        // (RP, RFC 1183, is written compressed although RFC 3597 section 4 reserves
+                        // compression for the RFC 1035 types; the property does not speak about which
+                        // types may compress, so this is only counted)
+                        if !any_compressible && r.raw_rdlen != wire.len() {
+                            c.count("compressing_target_compressed_outside_rfc1035", 1);
+                        }
+                        if let Some(n) = adv {
+                            if n as usize != r.raw_rdlen {
+                                viol(c, "rdlen-compress", format!("{}: rdlen(true) = {} but {} octets were written", comp, n, r.raw_rdlen));
+                            }
+                        }
+                        if r.raw_rdlen < wire.len() {
+                            c.count("compressing_target_compressed", 1);
+                        }
+                    }
+                    Err(e) => viol(c, "compressing-target-rdlen", format!("{}: the reference reader cannot parse the record written: {:?} ({} octets)", comp, e, msg.len())),
+                }
+            };
+            macro_rules! through {
+                ($comp:ident, $label:expr) => {{
+                    let r = (|| -> Result<Vec<u8>, String> {
+                        let mut q = MessageBuilder::from_target($comp::new(Vec::new())).map_err(|_| "from_target".to_string())?.question();
+                        for n in &prelude {
+                            q.push((n, Rtype::A)).map_err(|e| format!("question push: {}", e))?;
+                        }
+                        let mut a = q.answer();
+                        a.push((Name::<Vec<u8>>::root_vec(), Class::IN, Ttl::from_secs(0), &v)).map_err(|e| format!("record push: {}", e))?;
+                        Ok(a.finish().into_target())
+                    })();
+                    judge(c, $label, r, co.rdlen_compress);
+                }};
+            }
+            through!(StaticCompressor, "StaticCompressor");
+            through!(TreeCompressor, "TreeCompressor");
+            through!(HashCompressor, "HashCompressor");
+        }
         // (8) unknown record data carries any type opaquely
         {
             let mut p = Parser::from_ref(&wire[..]);
@@ -369,7 +438,133 @@ fn one_mutant(c: &mut Ctx, fam: &str, idx: u64, rng: &mut Rng, t: u16, fs: &[Fv]
     }
 }
 
+/// SVCB parameters assembled through `SvcParamsBuilder` in any push order
+/// freeze to the key-sorted sequence holding every value pushed; a second
+/// push of a key is refused and changes nothing.
+fn svcb_builder_case(c: &mut Ctx, fam: &str, idx: u64, rng: &mut Rng) {
+    use domain::base::iana::SvcParamKey;
+    use domain::rdata::svcb::{SvcParams, SvcParamsBuilder, UnknownSvcParam};
+    // a sorted, well-formed parameter sequence from the reference generator, topped up with opaque keys
+    let mut wire = g::svcparams(rng);
+    let mut pairs: Vec<(u16, Vec<u8>)> = Vec::new();
+    let mut p = 0;
+    while p + 4 <= wire.len() {
+        let k = u16::from_be_bytes([wire[p], wire[p + 1]]);
+        let l = u16::from_be_bytes([wire[p + 2], wire[p + 3]]) as usize;
+        pairs.push((k, wire[p + 4..p + 4 + l].to_vec()));
+        p += 4 + l;
+    }
+    for _ in 0..rng.below(5) {
+        let k = 10 + rng.below(40) as u16;
+        if !pairs.iter().any(|(x, _)| *x == k) {
+            pairs.push((k, rng.bytes(rng.clone().range(0, 12))));
+        }
+    }
+    // the "mandatory" value lists the other keys; keep whatever the generator made, the builder treats values as opaque
+    pairs.sort_by_key(|(k, _)| *k);
+    wire.clear();
+    for (k, v) in &pairs {
+        wire.extend_from_slice(&k.to_be_bytes());
+        wire.extend_from_slice(&(v.len() as u16).to_be_bytes());
+        wire.extend_from_slice(v);
+    }
+    // push order: ascending, descending or shuffled
+    let mut order: Vec<usize> = (0..pairs.len()).collect();
+    let order_kind = rng.below(4);
+    match order_kind {
+        0 => {}
+        1 => order.reverse(),
+        _ => {
+            for i in (1..order.len()).rev() {
+                let j = rng.below(i + 1);
+                order.swap(i, j);
+            }
+        }
+    }
+    // some of the values may come from an existing sequence (from_params), the rest are pushed
+    let keep = if rng.chance(1, 3) { rng.below(pairs.len() + 1) } else { 0 };
+    let ex = json!({"order": order.iter().map(|i| pairs[*i].0).collect::<Vec<_>>(), "from_params": keep, "wire": hex(&wire)});
+    let res = crate::ctx::catch(|| -> Result<(), (String, String)> {
+        let mut b: SvcParamsBuilder<Vec<u8>> = if keep > 0 {
+            let mut pre = Vec::new();
+            let mut idxs: Vec<usize> = order[..keep].to_vec();
+            idxs.sort_unstable();
+            for i in &idxs {
+                pre.extend_from_slice(&pairs[*i].0.to_be_bytes());
+                pre.extend_from_slice(&(pairs[*i].1.len() as u16).to_be_bytes());
+                pre.extend_from_slice(&pairs[*i].1);
+            }
+            let sp = SvcParams::from_octets(pre).map_err(|_| ("svcb-builder:from_octets".to_string(), "sorted sequence rejected".to_string()))?;
+            SvcParamsBuilder::from_params(&sp).map_err(|_| ("svcb-builder:from_params".to_string(), "from_params failed on a Vec".to_string()))?
+        } else {
+            SvcParamsBuilder::empty()
+        };
+        for (n, i) in order.iter().enumerate().skip(keep) {
+            let (k, v) = &pairs[*i];
+            let val = UnknownSvcParam::new(SvcParamKey::from_int(*k), &v[..]).map_err(|_| ("svcb-builder:value".to_string(), "UnknownSvcParam::new refused a short value".to_string()))?;
+            b.push(&val).map_err(|e| ("svcb-builder:push".to_string(), format!("push of key {} refused: {}", k, e)))?;
+            // now and then push a key that is already there: refused, nothing changes
+            if rng.chance(1, 4) {
+                let (dk, _) = &pairs[order[rng.below(n + 1)]];
+                let before: SvcParams<Vec<u8>> = b.freeze().map_err(|_| ("svcb-builder:freeze".to_string(), "freeze failed".to_string()))?;
+                let dup = UnknownSvcParam::new(SvcParamKey::from_int(*dk), &b"dup"[..]).unwrap();
+                if b.push(&dup).is_ok() {
+                    return Err(("svcb-builder:duplicate-accepted".into(), format!("second push of key {} accepted", dk)));
+                }
+                let after: SvcParams<Vec<u8>> = b.freeze().map_err(|_| ("svcb-builder:freeze".to_string(), "freeze failed".to_string()))?;
+                if before.as_slice() != after.as_slice() {
+                    return Err(("svcb-builder:failed-push-changed".into(), format!("refused push of key {} changed the sequence", dk)));
+                }
+            }
+        }
+        let frozen: SvcParams<Vec<u8>> = b.freeze().map_err(|_| ("svcb-builder:freeze".to_string(), "freeze failed".to_string()))?;
+        if frozen.as_slice() != &wire[..] {
+            return Err(("svcb-builder:frozen-differs".into(), format!("pushed keys {:?}, frozen sequence is {} want {}", order.iter().map(|i| pairs[*i].0).collect::<Vec<_>>(), hex(frozen.as_slice()), hex(&wire))));
+        }
+        // what was frozen is a valid sequence for the checking constructor and iterates to the same pairs
+        let chk = SvcParams::from_slice(frozen.as_slice()).map_err(|_| ("svcb-builder:frozen-invalid".to_string(), "frozen sequence rejected by from_slice".to_string()))?;
+        let mut n = 0;
+        for it in chk.iter::<UnknownSvcParam<&[u8]>>() {
+            let it = it.map_err(|e| ("svcb-builder:frozen-invalid".to_string(), format!("frozen sequence does not iterate: {}", e)))?;
+            if n >= pairs.len() || it.key().to_int() != pairs[n].0 || it.value() != &&pairs[n].1[..] {
+                return Err(("svcb-builder:frozen-differs".into(), "iteration over the frozen sequence yields other pairs".into()));
+            }
+            n += 1;
+        }
+        if n != pairs.len() {
+            return Err(("svcb-builder:frozen-differs".into(), format!("{} values pushed, {} iterate", pairs.len(), n)));
+        }
+        Ok(())
+    });
+    match res {
+        Ok(Ok(())) => {
+            c.count("svcb_builder_sequences", 1);
+            if pairs.len() >= 3 && order_kind != 0 {
+                c.count("svcb_builder_out_of_order_3plus", 1);
+            }
+        }
+        Ok(Err((sig, what))) => {
+            let rp = c.replay_of(fam, idx, ex);
+            c.violation(&sig, &what, rp);
+        }
+        Err(pi) => {
+            let rp = c.replay_of(fam, idx, ex);
+            c.violation(&format!("panic:{}", pi.site()), &format!("panic in SvcParamsBuilder: {} at {}:{}", pi.msg, pi.file, pi.line), rp);
+        }
+    }
+    c.eval(&("svcb-builder", pairs.len().min(8), order_kind, keep.min(4)));
+}
+
 pub fn run(c: &mut Ctx) {
+    let fam = "svcb-builder";
+    let total = c.total(100_000, 2_000_000);
+    for idx in c.cases(fam, total) {
+        if c.out_of_time() {
+            break;
+        }
+        let mut rng = c.case_rng(fam, idx);
+        svcb_builder_case(c, fam, idx, &mut rng);
+    }
     let mut per_type: BTreeMap<String, u64> = BTreeMap::new();
     let fam = "values";
     let total = c.total(800_000, 16_000_000);
@@ -408,6 +603,8 @@ pub fn run(c: &mut Ctx) {
         c.floor("type_UNKNOWN", 1);
         c.floor("values_roundtripped", 1000);
         c.floor("compressed_input_accepted", 100);
+        c.floor("compressing_target_compressed", 100);
+        c.floor("svcb_builder_out_of_order_3plus", 100);
         c.floor("mutants_accepted", 100);
         c.floor("mutants_rejected", 100);
         c.floor("opt_records", 10);
